@@ -1,6 +1,77 @@
 (* GenoBasics.v — induction principles and elementary lemmas of the Geno model. *)
 From PG Require Import Common.Tactics Model.Geno.
 
+(* ---- induction over specifications and over structured decisions ------------------------------ *)
+Section SpecInd.
+  Variables (P : dspec -> Prop) (Q : dpoint -> Prop).
+  Hypothesis HS : forall es, Forall Q es -> P (Space es).
+  Hypothesis HC : forall k cands d s nm lits, Forall P cands -> Q (Choices k cands d s nm lits).
+  Hypothesis HF : forall lo hi nm, Q (FloatP lo hi nm).
+  Hypothesis HX : forall nm, Q (CustomP nm).
+  Fixpoint dspec_ind2 (s : dspec) : P s :=
+    match s with
+    | Space es => HS es ((fix go (es : list dpoint) : Forall Q es :=
+                            match es with [] => Forall_nil _ | e :: r => Forall_cons _ (dpoint_ind2 e) (go r) end) es)
+    end
+  with dpoint_ind2 (p : dpoint) : Q p :=
+    match p with
+    | Choices k cands d s nm lits =>
+        HC k cands d s nm lits ((fix go (cs : list dspec) : Forall P cs :=
+                                   match cs with [] => Forall_nil _ | c :: r => Forall_cons _ (dspec_ind2 c) (go r) end) cands)
+    | FloatP lo hi nm => HF lo hi nm
+    | CustomP nm => HX nm
+    end.
+  Lemma dspec_dpoint_ind : (forall s, P s) /\ (forall p, Q p).
+  Proof. split; [exact dspec_ind2 | exact dpoint_ind2]. Qed.
+End SpecInd.
+
+Section SdnaInd.
+  Variables (P : sdna -> Prop) (Q : pdna -> Prop).
+  Hypothesis HS : forall ds, Forall Q ds -> P (SSpace ds).
+  Hypothesis HC : forall cs, Forall (fun cs0 => P (snd cs0)) cs -> Q (PChoices cs).
+  Hypothesis HF : forall f, Q (PFloat f).
+  Hypothesis HX : forall s, Q (PCustom s).
+  Fixpoint sdna_ind2 (d : sdna) : P d :=
+    match d with
+    | SSpace ds => HS ds ((fix go (ds : list pdna) : Forall Q ds :=
+                             match ds with [] => Forall_nil _ | x :: r => Forall_cons _ (pdna_ind2 x) (go r) end) ds)
+    end
+  with pdna_ind2 (x : pdna) : Q x :=
+    match x with
+    | PChoices cs => HC cs ((fix go (cs : list (nat * sdna)) : Forall (fun cs0 => P (snd cs0)) cs :=
+                               match cs with [] => Forall_nil _ | c :: r => Forall_cons _ (sdna_ind2 (snd c)) (go r) end) cs)
+    | PFloat f => HF f
+    | PCustom s => HX s
+    end.
+  Lemma sdna_pdna_ind : (forall d, P d) /\ (forall x, Q x).
+  Proof. split; [exact sdna_ind2 | exact pdna_ind2]. Qed.
+End SdnaInd.
+
+(* ---- helpers ------------------------------------------------------------------------------------ *)
 Lemma with_nth_nth_error : forall A B (f : A -> B) d l n,
   with_nth f d l n = match nth_error l n with Some x => f x | None => d end.
 Proof. induction l; destruct n; simpl; auto. Qed.
+
+Lemma forallb2_Forall2 : forall A B (f : A -> B -> bool) l1 l2,
+  forallb2 f l1 l2 = true <-> Forall2 (fun a b => f a b = true) l1 l2.
+Proof.
+  induction l1; destruct l2; simpl; split; intros H; try discriminate; try (inv H; fail); auto.
+  - apply andb_true_iff in H as [H1 H2]. constructor; auto. apply IHl1; auto.
+  - inv H. apply andb_true_iff; split; auto. apply IHl1; auto.
+Qed.
+
+Lemma memb_In : forall x l, memb x l = true <-> In x l.
+Proof.
+  unfold memb; intros; rewrite existsb_exists; split.
+  - intros [y [Hy He]]. apply Nat.eqb_eq in He; subst; auto.
+  - intros; exists x; split; auto. apply Nat.eqb_refl.
+Qed.
+
+Lemma last_opt_app : forall A (l : list A) x, last_opt (l ++ [x]) = Some x.
+Proof.
+  induction l; simpl; auto. intros. rewrite IHl. destruct (l ++ [x]) eqn:E; auto.
+  destruct l; discriminate.
+Qed.
+
+Lemma nth_error_Forall : forall A (P : A -> Prop) l n x, Forall P l -> nth_error l n = Some x -> P x.
+Proof. intros. rewrite Forall_forall in H. apply H. eapply nth_error_In; eauto. Qed.
